@@ -185,7 +185,7 @@ LEMMAS = [
          cases={'quick': [dict(id='n%d_%s' % (n, 'tr' if tr else 'perm'), pre=['n == %d' % n, 'transient == %s' % tr]) for n in (2, 3) for tr in (True, False)],
                 'thorough': [dict(id='n%d_%s' % (n, 'tr' if tr else 'perm'), pre=['n == %d' % n, 'transient == %s' % tr]) for n in (1, 2, 3, 4) for tr in (True, False)]}),
     dict(name='L3_bam_split_by_tag', fn='_l3_bam_split', engine='E1', timeout=_T, replay='replay.C19:replay_split',
-         cases={'quick': [dict(id='n%d' % n, pre=['n == %d' % n] + ['t%d == 0' % i for i in range(n, 5)]) for n in (1, 2, 3, 4)],
+         cases={'quick': [dict(id='n%d' % n, pre=['n == %d' % n] + ['t%d == 0' % i for i in range(n, 5)]) for n in (1, 2, 3)] + [dict(id='n4_h%d' % h, pre=['n == 4', 'maxh == %d' % h, 't4 == 0']) for h in (1, 2, 3)],
                 'thorough': [dict(id='n%d_h%d' % (n, h), pre=['n == %d' % n, 'maxh == %d' % h] + ['t%d == 0' % i for i in range(n, 5)]) for n in (1, 2, 3, 4, 5) for h in (1, 2, 3)]}),
     dict(name='L2_fastqhandle_sc', fn='_l2_fastqhandle', engine='E1', timeout=_T, replay='replay.C19:replay_fh'),
 ]
